@@ -46,6 +46,32 @@ Qed.
 Lemma zget_not_in {V} f (d : zdict V) : ~ In f (zkeys d) -> zget f d = None.
 Proof. intros H. destruct (zget f d) eqn:E; [|reflexivity]. exfalso. apply H. apply zkeys_zget. congruence. Qed.
 
+(* decidable versions, used to check the premises on concrete schedules *)
+Fixpoint nodupb (l : list Z) : bool :=
+  match l with [] => true | x :: t => negb (zin x t) && nodupb t end.
+Lemma nodupb_sound l : nodupb l = true -> NoDup l.
+Proof.
+  induction l as [|x t IH]; cbn [nodupb]; intros H; [constructor|].
+  apply andb_true_iff in H as [H1 H2]. constructor; [|apply IH; exact H2].
+  intros Hin. apply zin_In in Hin. rewrite Hin in H1. discriminate.
+Qed.
+Definition valid_eventsb (evs : sel_events) : bool :=
+  nodupb (zkeys evs) && forallb (fun p => (0 <=? fst p)%Z && ((snd p =? 1) || (snd p =? 2) || (snd p =? 3))) evs.
+Lemma valid_eventsb_sound evs : valid_eventsb evs = true -> valid_events evs.
+Proof.
+  unfold valid_eventsb, valid_events. intros H. apply andb_true_iff in H as [H1 H2].
+  split; [apply nodupb_sound; exact H1|]. rewrite forallb_forall in H2.
+  intros f m Hin. specialize (H2 (f, m) Hin). cbn [fst snd] in H2. apply andb_true_iff in H2 as [Ha Hb].
+  split; [apply Z.leb_le; exact Ha|]. unfold valid_mask.
+  apply orb_true_iff in Hb as [Hb|Hb]; [apply orb_true_iff in Hb as [Hb|Hb]|]; apply N.eqb_eq in Hb; auto.
+Qed.
+Definition monotoneb (prev evs1 : sel_events) : bool := forallb (fun p => zmem (fst p) evs1) prev.
+Lemma monotoneb_sound prev evs1 : monotoneb prev evs1 = true -> forall f, zget f evs1 = None -> zget f prev = None.
+Proof.
+  unfold monotoneb. rewrite forallb_forall. intros H f Hf. destruct (zget f prev) as [m|] eqn:E; [|reflexivity].
+  specialize (H (f, m) (zget_In_local _ _ _ E)). cbn [fst] in H. apply zmem_zget in H. congruence.
+Qed.
+
 (* ------------------------------------------------------------------ the threaded selector *)
 Lemma t_unregister_all_fold sm l : t_unregister_all sm l = fold_left unregister_tolerant l sm.
 Proof. revert sm. induction l as [|f t IH]; intros sm; cbn [t_unregister_all fold_left]; [reflexivity|]. apply IH. Qed.
@@ -285,6 +311,34 @@ Section Main.
         end
     end.
 
+  Fixpoint tameb (evs : list TEvent) (w : W) (prev : sel_events) : bool :=
+    match evs with
+    | [] => true
+    | e :: t =>
+        match te_kfail e with [] => true | _ => false end &&
+        match w_get_events w (te_io e) with
+        | (w1, Ok evs1) =>
+            valid_eventsb evs1 && monotoneb prev evs1 &&
+            let (rs, ws) := t_select (sel_of_events evs1) (te_ready e) in
+            match w_handle_events w1 rs ws (te_io e) with
+            | (w2, Ok false) => tameb t w2 evs1
+            | _ => true
+            end
+        | (_, Err _) => true
+        end
+    end.
+
+  Lemma tameb_sound evs : forall w prev, tameb evs w prev = true -> tame evs w prev.
+  Proof.
+    induction evs as [|e t IH]; intros w prev; cbn [tameb tame]; [intros _; exact I|].
+    intros H. apply andb_true_iff in H as [Hk H]. split; [destruct (te_kfail e); [reflexivity|discriminate]|].
+    destruct (w_get_events w (te_io e)) as [w1 [evs1|x]]; [|exact I].
+    apply andb_true_iff in H as [H12 H3]. apply andb_true_iff in H12 as [H1 H2].
+    split; [apply valid_eventsb_sound; exact H1|]. split; [apply monotoneb_sound; exact H2|].
+    destruct (t_select (sel_of_events evs1) (te_ready e)) as [rs ws].
+    destruct (w_handle_events w1 rs ws (te_io e)) as [w2 [[|]|x]]; try exact I. apply IH; exact H3.
+  Qed.
+
   (* the executor state while the single work i is live *)
   Record synced (i : work_id) (w : W) (prev : sel_events) (st : State) : Prop := {
     sy_works : works st = [(i, w)];
@@ -403,33 +457,34 @@ Section Main.
     - destruct (t_select (sel_of_events evs1) (te_ready e)) as [rs ws].
       cbn [create_tasks]. apply Z.eqb_neq in Hi0. rewrite Hi0, Hw. cbn [zget]. rewrite Z.eqb_refl.
       unfold wait_for_tasks. cbn [unfinished set_unfinished ev_fin lift]. rewrite Hu. cbn [app filter negb].
-      cbn [run_tasks run_task t_work t_r t_w works set_unfinished]. rewrite Hw. cbn [zget]. rewrite Z.eqb_refl.
-      cbn [ev_io lift]. rewrite Hh. cbn [works set_works set_unfinished zset]. rewrite Z.eqb_refl.
+      set (stx := set_unfinished (set_unfinished st [{| t_work := i; t_r := rs; t_w := ws |}]) []).
+      assert (Hwx : works stx = [(i, w1)]) by exact Hw.
+      cbn [run_tasks]. unfold run_task. cbn [t_work t_r t_w]. rewrite Hwx. cbn [zget]. rewrite Z.eqb_refl.
+      cbn [ev_io lift]. rewrite Hh. cbn [zset]. rewrite Z.eqb_refl.
       eexists. split; [reflexivity|].
       destruct r as [[|]|x].
-      + intros Hpos. cbn [cleanup_finished fold_left fst snd].
+      + intros Hpos. unfold cleanup_finished. cbn [fold_left fst snd].
         apply (cleanup_only (lift e) i w2 evs1); [|exact Hpos].
-        constructor; cbn [works set_works set_unfinished sel unfinished gone regs_of registered]; try assumption; try reflexivity.
-        exact Hr.
-      + cbn [cleanup_finished fold_left fst snd].
-        constructor; cbn [works set_works set_unfinished sel unfinished gone]; try assumption; try reflexivity. exact Hr.
-      + intros Hpos. cbn [cleanup_finished fold_left fst snd].
+        subst stx. constructor; [reflexivity|exact Hr|exact Hs|reflexivity|exact Hgn].
+      + unfold cleanup_finished. cbn [fold_left fst snd].
+        subst stx. constructor; [reflexivity|exact Hr|exact Hs|reflexivity|exact Hgn].
+      + intros Hpos. unfold cleanup_finished. cbn [fold_left fst snd].
         apply (cleanup_only (lift e) i w2 evs1); [|exact Hpos].
-        constructor; cbn [works set_works set_unfinished sel unfinished gone]; try assumption; try reflexivity. exact Hr.
+        subst stx. constructor; [reflexivity|exact Hr|exact Hs|reflexivity|exact Hgn].
     - rewrite (t_select_none (sel_of_events evs1) evs1 (te_ready e) (zget_sel_of_events evs1) Ea) in Hh.
       rewrite Hidle in Hh. inversion Hh; subst. exists st. split; [reflexivity|exact Hsy].
   Qed.
 
   (* the periodic sweep changes nothing: nobody is reaped *)
-  Lemma sweep_synced e i w prev (st : State) :
-    synced i w prev st -> synced i w prev (cleanup_inactive W IO w_shutdown w_is_inactive None (lift e) st).
+  Lemma sweep_synced (e : Event) i w prev (st : State) :
+    synced i w prev st -> synced i w prev (cleanup_inactive W IO w_shutdown w_is_inactive None e st).
   Proof.
     intros [Hw Hr Hs Hu Hg]. unfold cleanup_inactive. rewrite Hw. cbn [zkeys map fst inactive_scan].
     rewrite Hw. cbn [zget]. rewrite Z.eqb_refl. rewrite Hnr. cbn [works set_works zset inactive_scan fold_left]. rewrite Z.eqb_refl.
     constructor; cbn [works set_works sel unfinished gone]; try assumption. reflexivity.
   Qed.
-  Lemma sweep_ended e i wf (st : State) :
-    ended i wf st -> cleanup_inactive W IO w_shutdown w_is_inactive None (lift e) st = st.
+  Lemma sweep_ended (e : Event) i wf (st : State) :
+    ended i wf st -> cleanup_inactive W IO w_shutdown w_is_inactive None e st = st.
   Proof. intros [Hw _ _ _]. unfold cleanup_inactive. rewrite Hw. reflexivity. Qed.
 
   Lemma synced_tick i w prev (st : State) x : synced i w prev st -> synced i w prev (set_tick st x).
@@ -445,7 +500,7 @@ Section Main.
     { unfold update_selector. rewrite (en_works _ _ _ He). reflexivity. }
     rewrite Hu, (rest_ended e i wf st He). cbn [ev_running_set lift].
     destruct (tick_limit <=? tick st).
-    - rewrite (sweep_ended e i wf st He). eexists. split; [reflexivity|apply ended_tick; exact He].
+    - rewrite (sweep_ended (lift e) i wf st He). eexists. split; [reflexivity|apply ended_tick; exact He].
     - eexists. split; [reflexivity|apply ended_tick; exact He].
   Qed.
 
@@ -491,7 +546,7 @@ Section Main.
         replace (0 <=? f)%Z with true by (symmetry; apply Z.leb_le; eapply Hpos1; exact Ef). reflexivity. }
       destruct r as [[|]|x].
       + specialize (H2 Hpos1). destruct (tick_limit <=? tick st2).
-        * rewrite (sweep_ended e i _ st2 H2). eexists. split; [reflexivity|apply ended_tick; exact H2].
+        * rewrite (sweep_ended (lift e) i _ st2 H2). eexists. split; [reflexivity|apply ended_tick; exact H2].
         * eexists. split; [reflexivity|apply ended_tick; exact H2].
       + destruct (tick_limit <=? tick st2).
         * eexists. split; [reflexivity|]. split; [exact Hsm2|]. exists evs1.
@@ -499,12 +554,134 @@ Section Main.
         * eexists. split; [reflexivity|]. split; [exact Hsm2|]. exists evs1.
           split; [apply synced_tick; exact H2|]. split; [exact Hpos1|]. split; reflexivity.
       + specialize (H2 Hpos1). destruct (tick_limit <=? tick st2).
-        * rewrite (sweep_ended e i _ st2 H2). eexists. split; [reflexivity|apply ended_tick; exact H2].
+        * rewrite (sweep_ended (lift e) i _ st2 H2). eexists. split; [reflexivity|apply ended_tick; exact H2].
         * eexists. split; [reflexivity|apply ended_tick; exact H2].
     - pose proof (upd_err e i w prev st w1 x Hsy Hpos Hg) as He.
       rewrite (rest_ended e i _ _ He). cbn [ev_running_set lift].
       destruct (tick_limit <=? tick (UPD (lift e) st)).
-      + rewrite (sweep_ended e i _ _ He). eexists. split; [reflexivity|apply ended_tick; exact He].
+      + rewrite (sweep_ended (lift e) i _ _ He). eexists. split; [reflexivity|apply ended_tick; exact He].
       + eexists. split; [reflexivity|apply ended_tick; exact He].
   Qed.
+
+  (* tame is about the whole remaining schedule; what one turn needs is its head *)
+  Lemma tame_head e t w prev : tame (e :: t) w prev -> tame [e] w prev.
+  Proof.
+    cbn [tame]. intros [Hk Ht]. split; [exact Hk|].
+    destruct (w_get_events w (te_io e)) as [w1 [evs1|x]]; [|exact I].
+    destruct Ht as (Hv & Hm & Ht). split; [exact Hv|]. split; [exact Hm|].
+    destruct (t_select (sel_of_events evs1) (te_ready e)) as [rs ws].
+    destruct (w_handle_events w1 rs ws (te_io e)) as [w2 [[|]|x]]; exact I.
+  Qed.
+
+  (* the two loops in lock step *)
+  Theorem lockstep i evs : forall w prev (st : State) (sm : tsel),
+    i <> 0%Z -> synced i w prev st -> (forall f m, zget f prev = Some m -> (0 <= f)%Z) ->
+    (forall f, zget f sm = None) -> tame evs w prev ->
+    exists st', RUN (map lift evs) st = (st', Running) /\
+      match threaded_core evs w sm with
+      | (wT, _, None) => exists prev', synced i wT prev' st'
+      | (wT, _, Some e) => ended i (fst (w_shutdown wT (te_io e))) st'
+      end.
+  Proof.
+    induction evs as [|e t IH]; intros w prev st sm Hi0 Hsy Hpos Hsm Ht; cbn [map run_forever threaded_core].
+    - exists st. split; [reflexivity|exists prev; exact Hsy].
+    - rewrite Hnr.
+      destruct (body_step e i w prev st sm Hi0 Hsy Hpos Hsm (tame_head e t w prev Ht)) as (st1 & E1 & H1).
+      rewrite E1. cbn [tame] in Ht. destruct Ht as [Hk Ht].
+      unfold t_run_once in *. destruct (w_get_events w (te_io e)) as [w1 [evs1|x]] eqn:Hg.
+      + destruct Ht as (Hv & Hmono & Ht).
+        destruct (t_register_all (te_kfail e) sm evs1) as [sm1 rr] eqn:Er.
+        destruct rr as [u|x].
+        * destruct (t_register_all_ok evs1 sm Hv (fun f _ => Hsm f)) as (sm1' & Er' & Hsm1). rewrite Hk in Er. rewrite Er' in Er. inversion Er; subst sm1'.
+          assert (Hsm1' : forall f, zget f sm1 = zget f (sel_of_events evs1)).
+          { intros f. rewrite Hsm1, zget_sel_of_events, Hsm. destruct (zget f evs1); reflexivity. }
+          rewrite (t_select_ext sm1 (sel_of_events evs1) (te_ready e) Hsm1') in *.
+          destruct (t_select (sel_of_events evs1) (te_ready e)) as [rs ws].
+          destruct (w_handle_events w1 rs ws (te_io e)) as [w2 [[|]|x]].
+          -- destruct (run_ended t i _ st1 H1) as (st2 & E2 & K2). exists st2. split; [exact E2|exact K2].
+          -- destruct H1 as (Hsm2 & evs1' & Hsy1 & Hpos1 & _ & Hev). cbn [snd] in Hev. inversion Hev; subst evs1'.
+             apply (IH w2 evs1 st1 _ Hi0 Hsy1 Hpos1 Hsm2 Ht).
+          -- destruct (run_ended t i _ st1 H1) as (st2 & E2 & K2). exists st2. split; [exact E2|exact K2].
+        * exfalso. destruct (t_register_all_ok evs1 sm Hv (fun f _ => Hsm f)) as (sm1' & Er' & _).
+          rewrite Hk in Er. rewrite Er' in Er. discriminate.
+      + destruct (run_ended t i _ st1 H1) as (st2 & E2 & K2). exists st2. split; [exact E2|exact K2].
+  Qed.
+
+  (* the arrival: LocalFdExecutor.receive_from_work_queue -> work() -> initialize(); threaded: run() -> initialize() *)
+  Lemma arrival_step e0 i w :
+    i <> 0%Z ->
+    exists st1, BODY (arrive e0 i w) (init_state W None) = (st1, Running) /\
+      match w_initialize w (te_io e0) with
+      | (w0, Ok _) => synced i w0 [] st1
+      | (w0, Err _) => ended i (fst (w_shutdown w0 (te_io e0))) st1
+      end.
+  Proof.
+    intros Hi0. unfold loop_body, run_once.
+    assert (HU : UPD (arrive e0 i w) (init_state W None) = init_state W None) by reflexivity.
+    rewrite HU. clear HU.
+    assert (HR : REST (arrive e0 i w) (init_state W None) =
+                 (do_work W IO w_initialize w_shutdown None (arrive e0 i w) i w (init_state W None), Ok false)) by reflexivity.
+    rewrite HR. clear HR. cbn [ev_running_set arrive].
+    set (s1 := do_work W IO w_initialize w_shutdown None (arrive e0 i w) i w (init_state W None)).
+    assert (H1 : match w_initialize w (te_io e0) with
+                 | (w0, Ok _) => synced i w0 [] s1
+                 | (w0, Err _) => ended i (fst (w_shutdown w0 (te_io e0))) s1
+                 end).
+    { subst s1. unfold do_work, init_state. cbn [works set_works zset ev_io arrive].
+      destruct (w_initialize w (te_io e0)) as [w0 r0]. cbn [works set_works zset]. rewrite Z.eqb_refl.
+      destruct r0 as [u|x].
+      - constructor; cbn; try reflexivity. intros f. reflexivity.
+      - apply (cleanup_only (arrive e0 i w) i w0 []); [|intros f m; discriminate].
+        constructor; cbn; try reflexivity. intros f. reflexivity. }
+    clearbody s1. destruct (w_initialize w (te_io e0)) as [w0 [u|x]].
+    - destruct (tick_limit <=? tick s1).
+      + eexists. split; [reflexivity|]. apply synced_tick. apply (sweep_synced (arrive e0 i w) i w0 [] s1). exact H1.
+      + eexists. split; [reflexivity|]. apply synced_tick. exact H1.
+    - destruct (tick_limit <=? tick s1).
+      + unfold cleanup_inactive. rewrite (en_works _ _ _ H1). cbn [zkeys map inactive_scan fold_left].
+        eexists. split; [reflexivity|apply ended_tick; exact H1].
+      + eexists. split; [reflexivity|apply ended_tick; exact H1].
+  Qed.
+
+  (* C17, threaded vs local executor: same calls, same arguments, same exit, same work state at the exit *)
+  Theorem local_eq_threaded e0 evs i w :
+    i <> 0%Z ->
+    match w_initialize w (te_io e0) with (w0, Ok _) => tame evs w0 [] | _ => True end ->
+    exists st', RUN (arrive e0 i w :: map lift evs) (init_state W None) = (st', Running) /\
+      match w_initialize w (te_io e0) with
+      | (w0, Ok _) =>
+          match threaded_core evs w0 [] with
+          | (wT, _, None) => exists prev', synced i wT prev' st'          (* both still serving, same work state *)
+          | (wT, _, Some e) => ended i (fst (w_shutdown wT (te_io e))) st'  (* both left the loop at event e with work state wT *)
+          end
+      | (w0, Err _) => ended i (fst (w_shutdown w0 (te_io e0))) st'
+      end.
+  Proof.
+    intros Hi0 Ht. cbn [run_forever].
+    destruct (arrival_step e0 i w Hi0) as (st1 & E1 & H1). rewrite E1.
+    destruct (w_initialize w (te_io e0)) as [w0 [u|x]].
+    - apply (lockstep i evs w0 [] st1 [] Hi0 H1); [intros f m; discriminate|intros f; reflexivity|exact Ht].
+    - destruct (run_ended evs i _ st1 H1) as (st2 & E2 & K2). exists st2. split; [exact E2|exact K2].
+  Qed.
+
+  (* ... and the threaded run is that core followed by the threaded shutdown, which differs from the
+     threadless one only by the blocking flush of a pending client buffer *)
+  Theorem threaded_run_is_core e0 evs w :
+    T_RUN e0 evs w =
+    match w_initialize w (te_io e0) with
+    | (w0, Ok _) =>
+        match threaded_core evs w0 [] with
+        | (wT, _, None) => (wT, TRunning)
+        | (wT, smT, Some e) => let (w', r) := T_SHUTDOWN e wT smT in (w', TDone r)
+        end
+    | (w0, Err _) => let (w', r) := T_SHUTDOWN e0 w0 [] in (w', TDone r)
+    end.
+  Proof.
+    unfold threaded_run. destruct (w_initialize w (te_io e0)) as [w0 [u|x]]; [|reflexivity].
+    rewrite threaded_loop_core. destruct (threaded_core evs w0 []) as [[wT smT] [e|]]; reflexivity.
+  Qed.
+
+  Theorem shutdown_same_without_buffer e w sm :
+    w_has_buffer w = false -> T_SHUTDOWN e w sm = w_shutdown w (te_io e).
+  Proof. intros H. unfold t_shutdown. rewrite H. reflexivity. Qed.
 End Main.
